@@ -325,11 +325,16 @@ def sym_coo_matrix(arg1, shape=None, dtype=None, copy=False):
         return arg1.copy()
     if core.active() and isinstance(arg1, tuple) and len(arg1) == 2 and isinstance(arg1[1], tuple):
         arg1 = (_unlazy(arg1[0]), tuple(_unlazy(x) for x in arg1[1]))
-    if not core.active() or not has_sym(arg1):
-        a = unwrap(arg1) if core.active() else arg1
-        return _sp.coo_matrix(a, shape=shape, dtype=dtype, copy=copy)
+    if not core.active():
+        return _sp.coo_matrix(arg1, shape=shape, dtype=dtype, copy=copy)
+    # inside a symbolic run every matrix is a SymCOO, also one without a single symbolic entry: a real scipy matrix would
+    # hand plain ndarrays (toarray) back into code that mixes them with symbolic arrays
+    if _sp.issparse(arg1):
+        return SymCOO(funcs._as_sarr(arg1.toarray()))
     if not (isinstance(arg1, tuple) and len(arg1) == 2):
-        raise Unsupported('coo_matrix from a symbolic dense array')
+        if has_sym(arg1):
+            raise Unsupported('coo_matrix from a symbolic dense array')
+        return SymCOO(funcs._as_sarr(_np.asarray(unwrap(arg1))))
     data, ij = arg1
     data = funcs._as_sarr(_unlazy(data))
     ij = funcs._as_sarr(_unlazy(ij)) if not isinstance(ij, tuple) else ij
